@@ -305,10 +305,19 @@ def check_case(case):
         info["header_conformant"] = False
     # ---- C: strict fixed-width text (numbers abutting) written by the reference --------
     desc = ("%s %s %s" % (label or "REF", shot if shot is not None else "", time_ or ""))
-    for style, fmt in (("1PE16.9", ref.e16_9), ("E16.9 0.ddd", _fmt0p)):
+    for style, fmt in (("1PE16.9", ref.e16_9), ("E16.9 0.ddd", _fmt0p), ("1PE15.9 no blanks at all", ref.e16_9)):
         stext = ref.write_strict(d, desc, fmt)
+        rtext = stext
+        if style.startswith("1PE15.9"):
+            # writers that use a 15-character field leave no blank before POSITIVE numbers
+            # either: every float abuts its left neighbour (exponents have two digits, so
+            # the text is unambiguous).  Only lines of floats are squeezed - the header and
+            # the integer line "nbdry limitr" keep their blanks.
+            hd, _, body = stext.partition("\n")
+            rtext = hd + "\n" + "\n".join(ln.replace(" ", "") if ("E" in ln or "e" in ln) else ln
+                                          for ln in body.split("\n"))
         try:
-            got2 = hread(stext)
+            got2 = hread(rtext)
         except Exception as e:  # noqa: BLE001
             v("read raises %s on strict fixed-width text | %s" % (type(e).__name__, style),
               error=str(e)[:300])
